@@ -1070,6 +1070,10 @@ impl EntryScanner<'_> {
         &mut self,
         write: &mut usize,
     ) -> Result<(), EntryError> {
+        // Without a token (end of entry or end of data) there is no
+        // character string to convert.
+        self.zonefile.buf.require_token()?;
+
         let start = *write;
         *write += 1;
         let latest = *write + 255; // If write goes here, charstr is too long
